@@ -171,6 +171,6 @@ func VerifC10_q_prefixSiblings() { vpPrefixSiblings("C10") }
 // ASSUME: C10: same scenario as VerifC01_q_releaseVsRebind with the recording provider, checked under C10
 func VerifC10_q_releaseVsRebind() { vpReleaseVsRebind("C10") }
 
-// BOUND: cloud provider configured; topology 0 with all but one address held by other pods; a statefulset pod (symbolic policy) bound and running; a standby instance of galaxy-ipam has an informer cache that stops following at that point; the pod is deleted, its event handled, the same-named pod re-created, bound by the active instance and running; then the standby takes over (new plugin, tables rebuilt from the shared store, but its lagging informer cache: it still holds the first incarnation) and runs one resync pass (and the pod-IP sync pass) before its cache catches up, then another one afterwards. The live pod keeps its IP throughout (the stale cache's answer has to be confirmed with the API server)
+// BOUND: cloud provider configured; topology 0 with all but one address held by other pods; a statefulset pod (symbolic policy) bound and running; a standby instance of galaxy-ipam has an informer cache that stops following at that point; the pod is deleted, its event handled, the same-named pod re-created, bound by the active instance and running; then the standby takes over (new plugin, tables rebuilt from the shared store, but its lagging informer cache: it still holds the first incarnation) and runs one resync pass (and the pod-IP sync pass) before its cache catches up, then another one afterwards. The live pod keeps its IP throughout (the stale cache's answer has to be confirmed with the API server; one of the pass's pod GETs may fail at a symbolic position, answered as the real typed client does: an empty object plus the error)
 // ASSUME: C10: same scenario as VerifC04_q_failoverStaleCache with the recording provider, checked under C10
 func VerifC10_q_failoverStaleCache() { vpFailoverStaleCache("C10") }
